@@ -10,6 +10,7 @@ from intrinsics2 import uf_digest, as_bytes
 from mreg import HARNESSES, REPLAYERS, Native, model_bytes, sym_bytes
 from rpmvals import (byte_vec, header, index_data, index_entry, package, sigtag, string, tag)
 from symex import Adt, Cell, Exec, Int, Ref, Str, Unsupported, VecV
+from symex import Bool as Bool_
 
 
 def hexchars(bs):
@@ -497,7 +498,10 @@ def replay_hdr(ctx, fl):
     if k == "panic":
         return ans == "panic", "real crate: PackageMetadata::parse -> %s" % ans.split()[0]
     if k == "alloc":
-        return False, "allocation size is not observable through the native helper (reported by the budget model only): " + fl.get("detail", "")
+        a = ctx.native.ask("peak", "meta_rt", meta.hex())
+        pk = int(a.rsplit("peak=", 1)[1])
+        lim = max(16 * len(meta) + 4096, 1 << 16)
+        return pk > lim, "real crate: largest single allocation while parsing the %d-byte input: %d bytes (%s)" % (len(meta), pk, a.split()[0])
     if ans.startswith("ok"):
         out = bytes.fromhex(ans.split()[1]) if ans.split()[1] != "-" else b""
         hdr_out = out[96 + 16:]
@@ -549,7 +553,10 @@ def replay_cpio(ctx, fl):
     ans = ctx.native.ask("files", pkg.hex())
     if fl["kind"] == "cpio_panic":
         return ans.startswith("panic"), "real crate: Package::files() on the witness archive -> %s" % ans[:60]
-    return False, "allocation size is not observable natively (budget model): %s; real crate -> %s" % (fl.get("detail", ""), ans[:40])
+    a = ctx.native.ask("peak", "files", pkg.hex())
+    pk = int(a.rsplit("peak=", 1)[1])
+    lim = max(16 * len(pkg) + 4096, 1 << 16)
+    return pk > lim, "real crate: largest single allocation while iterating the %d-byte package: %d bytes" % (len(pkg), pk)
 
 
 def replay_c05(ctx, fl):
@@ -1470,9 +1477,305 @@ def c16_clear(ctx, nsig, ssize):
 
 
 def replay_clear(ctx, fl):
-    return False, "not replayed natively (needs a parsed package with a signature header; see demonstration)"
+    import rpmbytes as RB
+    n, s = fl["nsig"], fl["ssize"]
+    st = bytes(range(1, s + 1))
+    ent = [(sigtag("RPMSIGTAG_SHA256") + i, "Bin", 0, s) for i in range(n)]
+    meta = RB.lead() + RB.sig_header(ent, st) + RB.header([(tag("RPMTAG_NAME"), "StringTag", 0, 1)], b"x\0")
+    ans = ctx.native.ask("clear_offsets", meta.hex())
+    return ans.startswith("mismatch"), "real crate: parse, signature.clear(), offsets vs written bytes -> " + ans
 
 
 for _n, _s in ((1, 4), (2, 9), (0, 0), (1, 16)):
     HARNESSES["c16_clear_%d_%d" % (_n, _s)] = (lambda n, s: (lambda ctx: c16_clear(ctx, n, s)))(_n, _s)
 REPLAYERS["c16"] = (lambda prev: (lambda ctx, fl: replay_clear(ctx, fl) if fl.get("kind") == "clear" else prev(ctx, fl)))(REPLAYERS["c16"])
+
+
+# ---------------------------------------------------------------------------------------------------------
+# C17: the builder's file destination handling (PackageBuilder::add_data) never panics
+# ---------------------------------------------------------------------------------------------------------
+def c17_dest(ctx, n, alphabet=b"/.a"):
+    ad = ctx.impl_fn("add_data", None, "PackageBuilder")
+    ex = Exec(ctx.funcs, intrinsics.I, max_steps=400000)
+    ctx.stats = ex.stats
+    ctx.bounds = "PackageBuilder::add_data (what with_file calls) on every destination string of exactly %d characters over {%s}, file content 2 symbolic bytes" % (n, ",".join(repr(chr(c)) for c in alphabet))
+    from symex import Opaque
+    from intrinsics3 import MapV
+
+    def setup(e):
+        d = [z3.BitVec("d%d" % i, 8) for i in range(n)]
+        for x in d:
+            e.solver.add(z3.Or([x == c for c in alphabet]))
+        return d, sym_bytes(e, "c", 2, 0, 255)
+
+    def run_concrete(dest):
+        res = []
+        exc = Exec(ctx.funcs, intrinsics.I)
+        exc.run_all(lambda e: ([z3.BitVecVal(c, 8) for c in dest], [z3.BitVecVal(1, 8), z3.BitVecVal(2, 8)]), body, lambda e, i, o: res.append(o))
+        k, v = res[0]
+        return "panic" if k != "return" else ("ok" if v.variant == "Ok" else "err")
+
+    def body(e, inp):
+        d, content = inp
+        fields = [Opaque("builder-field-%d" % i) for i in range(52)]
+        fields[10] = MapV()       # files: BTreeMap<String, PackageFileEntry>
+        fields[11] = MapV()       # directories: BTreeSet<String>
+        b = Adt("PackageBuilder", "PackageBuilder", fields)
+        opts = Adt("FileOptions", "FileOptions", [string(d), string(b"root"), string(b"root"), string(b""), Adt("FileMode", "Regular", [Int(0o664, "u16")]),
+                                                  Opaque("FileFlags"), Bool_(False), Adt("Option", "None"), Opaque("FileVerifyFlags")])
+        return e.call_fn(ad, [Ref(Cell(b)), byte_vec(content), Adt("Timestamp", "Timestamp", [Int(0, "u32")]), opts])
+
+    def on_path(e, inp, out):
+        k, v = out
+        dest = model_bytes(e, inp[0])
+        ctx.cover("destination accepted", k == "return" and v.variant == "Ok")
+        ctx.cover("destination rejected", k == "return" and v.variant == "Err")
+        if k != "return":
+            ctx.fail("adding a file with this destination panics: %s" % (v,), "PackageBuilder::add_data", kind="c17", dest=dest.hex())
+
+    # translator validation of the std::path model: concrete destinations through the interpreter and through the real builder
+    vectors = [b"/a", b"./a", b"/a/b", b"/", b"//", b"/.", b"/./a", b"./a/b", b"a", b"", b"/a/", b"/a//b", b"./", b"/a/./b", b"/a/.b", b"/..a", b"./.a", b"/.../a"]
+    for _ in range(60):
+        vectors.append(bytes(ctx.rng.choice(alphabet) for _ in range(ctx.rng.randint(0, 6))))
+    for d in vectors:
+        mine = run_concrete(d)
+        real = ctx.native.ask("with_file", Native.hex(d))
+        if mine != real:
+            raise Unsupported("translator validation failed: add_data(%r): interpreter %s, real crate %s" % (d, mine, real))
+        ctx.validated += 1
+    ex.run_all(setup, body, on_path)
+
+
+def c17_caps(ctx, segs):
+    """FileOptionsBuilder::caps: invalid capability text is an InvalidCapabilities error, valid text is stored; never a panic"""
+    new = ctx.impl_fn("new", None, "FileOptions")
+    caps = ctx.impl_fn("caps", None, "FileOptionsBuilder")
+    val = ctx.find_fn(r"(filecaps::)?validate_caps_text")
+    ex = Exec(ctx.funcs, intrinsics.I)
+    ctx.stats = ex.stats
+    ctx.bounds = "FileOptions::new(\"/x\").caps(text) for text of shape %s" % " ".join(repr(x.decode()) if isinstance(x, bytes) else str(x) for x in segs)
+
+    def setup(e):
+        out = []
+        for k, sg in enumerate(segs):
+            out += [z3.BitVecVal(c, 8) for c in sg] if isinstance(sg, bytes) else sym_bytes(e, "s%d_" % k, sg)
+        return out
+
+    def body(e, bs):
+        from symex import Opaque
+        inner = Adt("FileOptions", "FileOptions", [string(b"/x"), string(b"root"), string(b"root"), string(b""), Adt("FileMode", "Regular", [Int(0o664, "u16")]),
+                                                   Opaque("FileFlags"), Bool_(True), Adt("Option", "None"), Opaque("FileVerifyFlags")])
+        fo = Adt("FileOptionsBuilder", "FileOptionsBuilder", [inner])
+        r = e.call_fn(caps, [fo, string(bs)])
+        v = e.call_fn(val, [Str(bs)])
+        return r, v
+
+    def on_path(e, bs, out):
+        k, v = out
+        if k != "return":
+            ctx.fail("setting file capabilities panics: %s" % (v,), "FileOptionsBuilder::caps", kind="c17caps", text=model_bytes(e, bs).hex())
+            return
+        r, valid = v
+        ctx.cover("capabilities accepted", r.variant == "Ok")
+        ctx.cover("capabilities rejected", r.variant == "Err")
+        if (r.variant == "Ok") != (valid.variant == "Ok") or (r.variant == "Err" and getattr(r.fields[0], "variant", "") != "InvalidCapabilities"):
+            ctx.fail("caps() does not report invalid capability text as InvalidCapabilities", "FileOptionsBuilder::caps", kind="c17caps", text=model_bytes(e, bs).hex())
+    ex.run_all(setup, body, on_path)
+
+
+for _nm, _sg in (("sym2", [2]), ("sym3", [3]), ("chown_sym2", [b"cap_chown", 2]), ("two", [b"=e ", 2])):
+    HARNESSES["c17_caps_" + _nm] = (lambda sg: (lambda ctx: c17_caps(ctx, sg)))(_sg)
+
+
+def replay_c17(ctx, fl):
+    if fl.get("kind") == "c17caps":
+        a, b = ctx.native.ask("fcaps", fl["text"]).split()
+        return a != b, "real crate: FileOptions::caps accepts=%s, FileCaps::from_str accepts=%s" % (a, b)
+    ans = ctx.native.ask("with_file", fl["dest"])
+    return ans == "panic", "real crate: PackageBuilder::with_file(.., FileOptions::new(%r)) -> %s" % (bytes.fromhex(fl["dest"]), ans)
+
+
+REPLAYERS["c17"] = replay_c17
+for _n in range(0, 7):
+    HARNESSES["c17_dest_%d" % _n] = (lambda n: (lambda ctx: c17_dest(ctx, n)))(_n)
+
+
+# ---------------------------------------------------------------------------------------------------------
+# C08 / C09: Package::clear_signatures: recorded header digest is the digest of the serialised header; the new
+# signature header is structurally valid
+# ---------------------------------------------------------------------------------------------------------
+def c08_clear(ctx, hs, stale, kinds):
+    cs = ctx.impl_fn("clear_signatures", None, "Package")
+    wr = ctx.impl_fn("write", None, "Header")
+    _fail0 = ctx.fail
+
+    def _fail(description, function, **kw):
+        if kw.get("kind") in kinds:
+            _fail0(description, function, **kw)
+    ctx.fail = _fail
+    ex = Exec(ctx.funcs, intrinsics.I)
+    ex.type_env = {}
+    ctx.stats = ex.stats
+    ctx.bounds = ("Package::clear_signatures on a package whose main header has %d symbolic store bytes; previous signature header %s; SHA-256 as an uninterpreted function"
+                  % (hs, "holds a (symbolic, possibly wrong) SHA256 entry and an RSA entry" if stale else "is empty"))
+
+    def setup(e):
+        return dict(store=sym_bytes(e, "h", hs, 0, 255), old=sym_bytes(e, "o", 64, 0x30, 0x66), content=sym_bytes(e, "c", 2, 0, 255))
+
+    def body(e, inp):
+        hdr = header([index_entry(tag("RPMTAG_NAME"), index_data("Bin", byte_vec(inp["store"])), 0)], inp["store"])
+        old = []
+        if stale:
+            old = [index_entry(sigtag("RPMSIGTAG_RSA"), index_data("Bin", byte_vec([1, 2, 3])), 0),
+                   index_entry(sigtag("RPMSIGTAG_SHA256"), index_data("StringTag", string(inp["old"])), 3)]
+        pkg = package(header(old, [1, 2, 3] + list(inp["old"]) + [0] if stale else []), hdr, inp["content"])
+        cell = Cell(pkg)
+        r = e.call_fn(cs, [Ref(cell)])
+        pkg2 = cell.v
+        buf = VecV([])
+        e.call_fn(wr, [Ref(Cell(pkg2.fields[0].fields[2])), Ref(Cell(buf))])
+        return r, pkg2, as_bytes(e, buf)
+
+    def on_path(e, inp, out):
+        k, v = out
+        if k != "return":
+            ctx.fail("clear_signatures fails: %s" % (v,), "Package::clear_signatures", kind="c08", hs=hs)
+            return
+        r, pkg2, hb = v
+        ctx.cover("signatures cleared", r.variant == "Ok")
+        if r.variant != "Ok":
+            ctx.fail("clear_signatures returns an error", "Package::clear_signatures", kind="c08", hs=hs)
+            return
+        sig = pkg2.fields[0].fields[1]
+        ents = sig.fields[1].items
+        want = hexchars(uf_digest("sha256", hb))
+        sha = [en for en in ents if not e._check(en.fields[0].e != sigtag("RPMSIGTAG_SHA256"))]
+        if len(sha) != 1 or sha[0].fields[1].variant != "StringTag":
+            ctx.fail("cleared package does not record exactly one SHA256 header digest", "Package::clear_signatures", kind="c08", hs=hs)
+        else:
+            got = intrinsics.as_str(e, sha[0].fields[1].fields[0]).bytes()
+            if len(got) != 64 or e._check(z3.Not(all_eq(got, want))):
+                ctx.fail("the header digest recorded by clear_signatures is not the SHA-256 of the serialised header", "Package::clear_signatures", kind="c08", hs=hs)
+        for en in ents[1:]:
+            tv = en.fields[0].conc()
+            if tv in (sigtag("RPMSIGTAG_RSA"), sigtag("RPMSIGTAG_DSA"), sigtag("RPMSIGTAG_PGP"), sigtag("RPMSIGTAG_OPENPGP")):
+                ctx.fail("a signature survives clear_signatures", "Package::clear_signatures", kind="c08", hs=hs)
+        msgs = []
+        validate_header(e, sig, sigtag("HEADER_SIGNATURES"), lambda m: msgs.append(m) and False)
+        if msgs:
+            ctx.fail("signature header emitted by clear_signatures violates rpm's structural rules: " + msgs[0], "Package::clear_signatures", kind="c09", hs=hs)
+        # main header and payload untouched
+        if e._check(z3.Not(intrinsics2._eq_any(e, pkg2.fields[1], byte_vec(inp["content"])))):
+            ctx.fail("clear_signatures changed the payload", "Package::clear_signatures", kind="c08", hs=hs)
+
+    ex.run_all(setup, body, on_path)
+
+
+def replay_c08_clear(ctx, fl):
+    import hashlib
+    import rpmbytes as RB
+    hs = fl.get("hs", 0)
+    st = bytes(range(1, hs + 1))
+    hdr_e = [(tag("RPMTAG_NAME"), "Bin", 0, hs)]
+    wrong = b"0" * 64
+    sig_s = b"\x01\x02\x03" + wrong + b"\0"
+    sig_e = [(sigtag("RPMSIGTAG_RSA"), "Bin", 0, 3), (sigtag("RPMSIGTAG_SHA256"), "StringTag", 3, 1)]
+    pkg = RB.package(sorted(sig_e), sig_s, hdr_e, st, b"\x01\x02")
+    ans = ctx.native.ask("clear_digest", pkg.hex())
+    return ans.startswith("bad"), "real crate: parse a package with a stale signature header, clear_signatures(), verify_digests() -> " + ans
+
+
+REPLAYERS["c08"] = replay_c08_clear
+REPLAYERS["c09"] = lambda ctx, fl: replay_c08_clear(ctx, fl) if "hs" in fl else (False, "assembly witnesses are not replayed natively (from_entries is crate-private)")
+for _hs in (0, 3):
+    for _st in (False, True):
+        HARNESSES["c08_clear_%d_%s" % (_hs, "stale" if _st else "empty")] = (lambda a, b: (lambda ctx: c08_clear(ctx, a, b, ("c08",))))(_hs, _st)
+        HARNESSES["c09_clear_%d_%s" % (_hs, "stale" if _st else "empty")] = (lambda a, b: (lambda ctx: c08_clear(ctx, a, b, ("c09",))))(_hs, _st)
+
+
+# ---------------------------------------------------------------------------------------------------------
+# C05: zipped accessors (dependencies of all eight kinds, changelog)
+# ---------------------------------------------------------------------------------------------------------
+DEP_KINDS = {"provides": "PROVIDE", "requires": "REQUIRE", "conflicts": "CONFLICT", "obsoletes": "OBSOLETE", "recommends": "RECOMMEND", "suggests": "SUGGEST",
+             "enhances": "ENHANCE", "supplements": "SUPPLEMENT"}
+
+
+def c05_deps(ctx, kind, n, drop=None):
+    """header holding the name/flags/version triples of ALL eight dependency kinds (n items each, contents symbolic and distinct per kind),
+    get_<kind>() must return exactly its own triple zipped in order; with one member of the triple missing: an error"""
+    getter = ctx.impl_fn("get_" + kind, None, "PackageMetadata")
+    ex = Exec(ctx.funcs, intrinsics.I)
+    ctx.stats = ex.stats
+    ctx.bounds = "get_%s on a header with all eight dependency triples present (%d items each, names/versions 1 symbolic byte, flags any u32)%s" % (kind, n, "; %s tag of this kind absent" % drop if drop else "")
+
+    def setup(e):
+        inp = {}
+        for k in DEP_KINDS:
+            inp[k] = dict(names=[sym_bytes(e, "%s_n%d_" % (k, i), 1, 0x21, 0x7e) for i in range(n)], flags=[z3.BitVec("%s_f%d" % (k, i), 32) for i in range(n)],
+                          vers=[sym_bytes(e, "%s_v%d_" % (k, i), 1, 0x21, 0x7e) for i in range(n)])
+        return inp
+
+    def body(e, inp):
+        ents = []
+        for k, pre in DEP_KINDS.items():
+            if not (k == kind and drop == "NAME"):
+                ents.append(index_entry(tag("RPMTAG_%sNAME" % pre), index_data("StringArray", VecV([string(x) for x in inp[k]["names"]]))))
+            if not (k == kind and drop == "FLAGS"):
+                ents.append(index_entry(tag("RPMTAG_%sFLAGS" % pre), index_data("Int32", VecV([Int(x, "u32") for x in inp[k]["flags"]]))))
+            if not (k == kind and drop == "VERSION"):
+                ents.append(index_entry(tag("RPMTAG_%sVERSION" % pre), index_data("StringArray", VecV([string(x) for x in inp[k]["vers"]]))))
+        from rpmvals import metadata
+        return e.call_fn(getter, [Ref(Cell(metadata(header([], []), header(ents, []))))])
+
+    def on_path(e, inp, out):
+        k, v = out
+        if k != "return":
+            ctx.fail("dependency accessor panics: %s" % (v,), "PackageMetadata::get_" + kind, kind="c05deps", which=kind)
+            return
+        ctx.cover("list returned", v.variant == "Ok")
+        if drop:
+            if v.variant == "Ok":
+                ctx.fail("dependency list returned although the %s tag is missing" % drop, "PackageMetadata::get_" + kind, kind="c05deps", which=kind)
+            return
+        if v.variant != "Ok" or len(v.fields[0].items) != n:
+            ctx.fail("dependency list has the wrong length or is an error", "PackageMetadata::get_" + kind, kind="c05deps", which=kind)
+            return
+        me = inp[kind]
+        for i, dep in enumerate(v.fields[0].items):
+            nm, fl, ve = dep.fields
+            good = (not e._check(z3.Not(all_eq(intrinsics.as_str(e, nm).bytes(), me["names"][i]))) and not e._check(z3.Not(all_eq(intrinsics.as_str(e, ve).bytes(), me["vers"][i])))
+                    and not e._check(fl.fields[0].e != me["flags"][i]))
+            if not good:
+                ctx.fail("dependency %d of get_%s is not (name[i], flags[i], version[i]) of its own tags" % (i, kind), "PackageMetadata::get_" + kind, kind="c05deps", which=kind)
+                return
+    ex.run_all(setup, body, on_path)
+
+
+for _k in DEP_KINDS:
+    HARNESSES["c05_deps_%s_2" % _k] = (lambda k: (lambda ctx: c05_deps(ctx, k, 2)))(_k)
+HARNESSES["c05_deps_requires_0"] = lambda ctx: c05_deps(ctx, "requires", 0)
+for _d in ("NAME", "FLAGS", "VERSION"):
+    HARNESSES["c05_deps_provides_missing_%s" % _d] = (lambda d: (lambda ctx: c05_deps(ctx, "provides", 1, drop=d)))(_d)
+def replay_deps(ctx, fl):
+    """native: hand-encode a header with all eight dependency triples (2 items each, distinct contents) and query the accessor"""
+    import struct
+    import rpmbytes as RB
+    ent, st = [], b""
+    exp = {}
+    for i, (k, pre) in enumerate(DEP_KINDS.items()):
+        names = [b"n%d%d" % (i, j) for j in range(2)]
+        vers = [b"v%d%d" % (i, j) for j in range(2)]
+        flags = [0x100 * (i + 1) + j for j in range(2)]
+        for suffix, ty, data, al in (("NAME", "StringArray", b"".join(x + b"\0" for x in names), 1), ("FLAGS", "Int32", b"".join(struct.pack(">I", x) for x in flags), 4),
+                                     ("VERSION", "StringArray", b"".join(x + b"\0" for x in vers), 1)):
+            st += b"\0" * ((al - len(st) % al) % al)
+            ent.append((tag("RPMTAG_%s%s" % (pre, suffix)), ty, len(st), 2))
+            st += data
+        exp[k] = ",".join("%s:%x:%s" % (n.hex(), f, v.hex()) for n, f, v in zip(names, flags, vers))
+    meta = RB.lead() + RB.sig_header([], b"") + RB.header(sorted(ent), st)
+    which = fl.get("which", "provides")
+    ans = ctx.native.ask("deps", meta.hex(), which)
+    return ans != "ok " + exp[which], "real crate: get_%s on a header with eight distinct triples -> %s (expected %s)" % (which, ans[:80], exp[which][:60])
+
+
+REPLAYERS["c05"] = (lambda prev: (lambda ctx, fl: replay_deps(ctx, fl) if fl.get("kind") == "c05deps" else prev(ctx, fl)))(REPLAYERS["c05"])
